@@ -4,6 +4,7 @@ package main
 
 import (
 	"fmt"
+	"os"
 	"math"
 	"math/bits"
 	"strconv"
@@ -1416,6 +1417,9 @@ func (c *Ctx) segments(t *Term, depth int) ([]bitSeg, bool) {
 }
 
 func (c *Ctx) orAsConcat(a, b *Term) *Term {
+	if noOrConcat {
+		return nil
+	}
 	sa, ok := c.segments(a, 0)
 	if !ok || len(sa) == 0 {
 		return nil
@@ -1459,26 +1463,40 @@ func (c *Ctx) orAsConcat(a, b *Term) *Term {
 }
 
 
-// constTree reports whether t is a constant or an ite-tree with constant leaves (bounded size).
+// constTree reports whether t is a constant or a linear ite-chain with constant leaves
+// (ite(c1, k1, ite(c2, k2, ...)): the shape produced by table lookups with a symbolic index).
+// General ite-trees are left alone: distributing operations over them duplicates sub-trees exponentially.
 func constTree(t *Term, budget *int) bool {
-	*budget--
-	if *budget < 0 {
-		return false
+	for {
+		*budget--
+		if *budget < 0 {
+			return false
+		}
+		if t.Op == OConst {
+			return true
+		}
+		if t.Op != OIte {
+			return false
+		}
+		switch {
+		case t.Args[1].Op == OConst:
+			t = t.Args[2]
+		case t.Args[2].Op == OConst:
+			t = t.Args[1]
+		default:
+			return false
+		}
 	}
-	if t.Op == OConst {
-		return true
-	}
-	if t.Op == OIte {
-		return constTree(t.Args[1], budget) && constTree(t.Args[2], budget)
-	}
-	return false
 }
 
+var noConstTree = os.Getenv("GOSMT_NO_CONSTTREE") != ""
+var noOrConcat = os.Getenv("GOSMT_NO_ORCONCAT") != ""
+
 func isConstTree(t *Term) bool {
-	if t.Op != OIte {
+	if t.Op != OIte || noConstTree {
 		return false
 	}
-	b := 600
+	b := 300
 	return constTree(t, &b)
 }
 
